@@ -80,6 +80,21 @@ func runC10(c *Ctx) {
 		s.maxD = 0
 		t := strings.Join(s.eval(st.Val), " | ")
 		ok := t == "true" || strings.Contains(t, "Graph).isReturnError(")
+		// flag = flag || node.providerSpec.IsReturnError: the terms are `true` (flag already set) and the node's flag
+		if !ok {
+			ok = true
+			seenNode := false
+			for _, part := range strings.Split(t, " | ") {
+				switch {
+				case part == "true":
+				case strings.HasPrefix(part, "field:internal/kessoku.ProviderSpec.IsReturnError(field:internal/kessoku.node.providerSpec("):
+					seenNode = true
+				default:
+					ok = false
+				}
+			}
+			ok = ok && seenNode
+		}
 		c.check(ok, "C10.1", fnName(st.Parent())+":Injector.IsReturnError", L.pos(st.Pos()), "the injector's error flag is set from scheduled nodes only", t)
 	}
 	// Graph fields other than the known ones must not cache declaration-wide flags
